@@ -35,16 +35,27 @@ func buildChild(ctx *core.Ctx) (string, error) {
 		return "", err
 	}
 	modfile := filepath.Join(bdir, "c19child-"+key+".mod")
-	if err := os.WriteFile(modfile, []byte(strings.Replace(string(base), "=> /repo", "=> "+ctx.Repo, 1)), 0o644); err != nil {
+	mtmp := fmt.Sprintf("%s.tmp.%d", modfile, os.Getpid())
+	if err := os.WriteFile(mtmp, []byte(strings.Replace(string(base), "=> /repo", "=> "+ctx.Repo, 1)), 0o644); err != nil {
+		return "", err
+	}
+	if err := os.Rename(mtmp, modfile); err != nil {
 		return "", err
 	}
 	bin := filepath.Join(bdir, "c19child-"+key)
-	cmd := exec.Command("go", "build", "-modfile="+modfile, "-o", bin, "./props/c19/child")
+	// build under a private name, then rename: another check of the same copy may be
+	// executing the installed binary right now (no "text file busy", no half-written file)
+	tmp := fmt.Sprintf("%s.tmp.%d", bin, os.Getpid())
+	defer os.Remove(tmp)
+	cmd := exec.Command("go", "build", "-modfile="+modfile, "-o", tmp, "./props/c19/child")
 	cmd.Dir = goDir
 	cmd.Env = append(os.Environ(), "GOFLAGS=-mod=mod", "GOPROXY=off", "GOSUMDB=off", "GOTOOLCHAIN=local")
 	out, err := cmd.CombinedOutput()
 	if err != nil {
 		return "", fmt.Errorf("go build ./props/c19/child: %v: %s", err, clip(string(out), 1500))
+	}
+	if err := os.Rename(tmp, bin); err != nil {
+		return "", err
 	}
 	return bin, nil
 }
